@@ -31,6 +31,7 @@ LEVEL_TEXT += ' Added clause: a falsy payload is a payload.'
 TECHNIQUE += '; reader decoding policy; resume-offset contract of receive() on a stand-in file'
 LEVEL_TEXT += " Added clauses: undecodable bytes do not stop the reader; the stored offset is the file's own position."
 TECHNIQUE += '; deliveries lie inside the reading loop'
+TECHNIQUE += "; end-to-end interpretation of pack() -> unpack() on the JSON level for ids, recipients and payloads over the encoding's own characters (C19.R12)"
 LEVEL_TEXT += ' Added clause: offset and seen-set move one record at a time.'
 LEVEL_NOTE = 'Trusted: str.replace and re.sub scan left to right; a text-mode readline() returns a line without trailing newline only at end of file.'
 EXPLANATION = ('Static analysis of /repo sources, TatSu not imported. Stage sequences are extracted from the def-use chain of the '
